@@ -1,6 +1,6 @@
 (* C10 property theorems: statements only; every proof is [exact lemma]. *)
 From Coq Require Import ZArith.
-From Gv Require Import lib.Bytes lib.Json C02.Model C02.Spec C10.Model C10.Spec C10.ProofsStream C10.ProofsRecon C10.ProofsClean C10.ProofsPaths.
+From Gv Require Import lib.Bytes lib.Json C02.Model C02.Spec C10.Model C10.Spec C10.ProofsStream C10.ProofsTerm C10.ProofsRecon C10.ProofsClean C10.ProofsPaths.
 Open Scope N_scope.
 
 (* Every complete run of the defer-tree executor -- any interleaving of "fetch phase of group g
@@ -15,6 +15,24 @@ Theorem stream_wellformed : forall descs root tree data tr frames,
   stream_ok_b (map fr_sum frames) = true.
 Proof. exact stream_wellformed_b. Qed.
 Print Assumptions stream_wellformed.
+
+(* The stream terminates: every run from the initial state is at most as long as the measure of
+   that state (three steps' worth per deferred group: fetch, render, bookkeeping), and a state that
+   is not finished always has an enabled step (the fetch phase needs no lock, render+flush is one
+   atomic step), so every maximal run ends in a finished state -- whose last frame says
+   hasNext:false by stream_wellformed. *)
+Theorem stream_terminates : forall descs root tree data tr k0 G0 k G,
+  defer_plan_wf descs root tree = true ->
+  init_state descs root tree data = (k0, G0) ->
+  run descs root tr k0 G0 = Some (k, G) ->
+  (length tr <= msize k0)%nat /\
+  (task_done k = false -> exists a k' G' fin, tstep descs root a k G = Some (k', G', fin)).
+Proof.
+  intros descs root tree data tr k0 G0 k G Hwf Hi Hr. split.
+  - pose proof (run_bounded descs root tr k0 G0 k G Hr). Lia.lia.
+  - intros Hd. apply tstep_progress; [| exact Hd]. eapply wf_run_kwf; eauto.
+Qed.
+Print Assumptions stream_terminates.
 
 (* non-vacuity: { a  ... @defer { b { c ... @defer { d } } }  ... @defer { e } } with the tree
    Parallel(Sequence(Single 1, Single 2), Single 3); the run renders 3, then 1, then 2 *)
@@ -115,3 +133,46 @@ Example reconstruct_nonvacuous :
               (Some (proj (keep_layer None) ex_root ex_data []))
   = Some (JObj [([97], JStr [120]); ([98], JObj [([99], JStr [121])])]).
 Proof. vm_compute. split; reflexivity. Qed.
+
+(* ---- what the renderer gets wrong (witnesses replayed on the Go code, see KNOWN_FINDINGS) ---- *)
+
+(* A deferred fragment whose null bubbles through its own (nullable) anchor is completed with an
+   empty incremental list and without errors: the error collected by the pre-walk is dropped and
+   the client keeps the object the initial frame delivered.
+   { a { ... @defer { x } } }  x: String!, data {"a":{"x":null}} *)
+Definition ex2_root : dnode :=
+  DObj [] false [81] [] [DFld [97] None None None (DObj [[97]] true [65] [] [DFld [120] None None (Some 1) (DLeaf (NStr [[120]] false))])].
+Definition ex2_descs : list ddesc := [{| dd_id := 1; dd_parent := 0; dd_label := []; dd_path := [[97]] |}].
+Definition ex2_data : json := JObj [([97], JObj [([120], JNull)])].
+
+Theorem errors_reported_refuted :
+  defer_plan_wf ex2_descs ex2_root (Some (TSingle 1)) = true /\
+  (* the completion of the plan without @defer reports an error and nulls a *)
+  complete_root (fun _ _ => false) (erase ex2_root) ex2_data
+    = (Some (JObj [([97], JNull)]), [{| ge_kind := EK_NONNULL; ge_path := [PName [97]; PName [120]] |}]) /\
+  match exec ex2_descs ex2_root (Some (TSingle 1)) ex2_data [AFetch 1; ARender 1] with
+  | Some [f0; f1] =>
+    (* {"data":{"a":{}},"pending":[{"id":"1","path":["a"]}],"hasNext":true} *)
+    frame_bytes f0 = [123;34;100;97;116;97;34;58;123;34;97;34;58;123;125;125;44;34;112;101;110;100;105;110;103;34;58;91;123;34;105;100;34;58;34;49;34;44;34;112;97;116;104;34;58;91;34;97;34;93;125;93;44;34;104;97;115;78;101;120;116;34;58;116;114;117;101;125] /\
+    (* {"incremental":[],"completed":[{"id":"1"}],"hasNext":false} *)
+    frame_bytes f1 = [123;34;105;110;99;114;101;109;101;110;116;97;108;34;58;91;93;44;34;99;111;109;112;108;101;116;101;100;34;58;91;123;34;105;100;34;58;34;49;34;125;93;44;34;104;97;115;78;101;120;116;34;58;102;97;108;115;101;125]
+  | _ => False
+  end.
+Proof. vm_compute. repeat split; reflexivity. Qed.
+Print Assumptions errors_reported_refuted.
+
+(* When a non-null violation of the primary part nulls the whole data, the initial frame still
+   announces the root-level defers: "data":null, pending id 1 at path [], hasNext:true.
+   { a  ... @defer { b } }  a: String!, data {"a":null,"b":"x"} *)
+Definition ex3_root : dnode :=
+  DObj [] false [81] [] [DFld [97] None None None (DLeaf (NStr [[97]] false));
+                         DFld [98] None None (Some 1) (DLeaf (NStr [[98]] true))].
+Definition ex3_descs : list ddesc := [{| dd_id := 1; dd_parent := 0; dd_label := []; dd_path := [] |}].
+
+Theorem null_data_pending_refuted :
+  defer_plan_wf ex3_descs ex3_root (Some (TSingle 1)) = true /\
+  (* {"errors":[{"k":1,"path":["a"]}],"data":null,"pending":[{"id":"1","path":[]}],"hasNext":true} *)
+  let '(f0, _, _) := render_initial ex3_descs ex3_root (JObj [([97], JNull); ([98], JStr [120])]) in
+  frame_bytes f0 = [123;34;101;114;114;111;114;115;34;58;91;123;34;107;34;58;49;44;34;112;97;116;104;34;58;91;34;97;34;93;125;93;44;34;100;97;116;97;34;58;110;117;108;108;44;34;112;101;110;100;105;110;103;34;58;91;123;34;105;100;34;58;34;49;34;44;34;112;97;116;104;34;58;91;93;125;93;44;34;104;97;115;78;101;120;116;34;58;116;114;117;101;125].
+Proof. vm_compute. split; reflexivity. Qed.
+Print Assumptions null_data_pending_refuted.
